@@ -412,7 +412,7 @@ func (cx *Ctx) unfoldRecDefs(terms []*Term, fuel int) ([]*Term, error) {
 				vars[p.Name] = arg
 			}
 			cx.inTree++
-			env := &Env{cx: cx, st: cx.treeFor(epoch), old: nil, vars: vars, epochSt: cx.treeFor(epoch)}
+			env := &Env{cx: cx, st: cx.treeFor(epoch), old: nil, vars: vars, epochSt: cx.treeFor(epoch), forceEpoch: epoch != ""}
 			body, err := env.Eval(rd.Body)
 			cx.inTree--
 			if err != nil {
